@@ -20,7 +20,7 @@ PROPS = {
                    "context.WithTimeout / time.Time.Add (saturating) and the monotone clock used for the sandwich",
                    "net/http delivers the GRPC-Timeout header value unchanged apart from optional-whitespace trimming"],
   "partial": ["transit time and wall-clock drift are runtime facts: the e2e run measures them one-sidedly"],
-  "level_text": "Proof: Lean theorems over the Timeout model with Go's int64 multiply explicit (wrap64): every digit string of any length with a valid unit decodes to exactly v*unit or saturates to MaxInt64 / no deadline, never smaller or negative (C09_parse_valid); no header string can panic the parser (C09_parse_total); the client encodes max(1, d/1ms) with d-1ms < e <= d (C09_client_encoding); client->server round trip is exact (C09_client_server_roundtrip); no deadline => no header. Unit table, divisor, floor rule, ParseInt width and the presence of the saturation are regenerated from the source on every run. Tie: sandwich-checked differential run of contextFromHeaders / headersFromContext and real calls.",
+  "level_text": "Proof: Lean theorems over the Timeout model with Go's int64 multiply explicit (wrap64): every digit string of any length with a valid unit decodes to exactly v*unit or saturates to MaxInt64 / no deadline, never smaller or negative (C09_parse_valid); no header string can panic the parser (C09_parse_total); the client encodes max(1, d/1ms) with d-1ms < e <= d (C09_client_encoding); client->server round trip is exact (C09_client_server_roundtrip); no deadline => no header. Unit table, divisor, floor rule, ParseInt width and the presence of the saturation are regenerated from the source on every run. Tie: sandwich-checked differential run of contextFromHeaders / headersFromContext and real calls. The header applies whatever deadline the request context already carries: the handler's deadline is never later than now+d nor than the server's own bound, and equals now+d when that bound is absent or later (C09_deadline_under_bounded_parent; guard and parent of the WithTimeout call regenerated); without a header the request context's deadline is kept (C09_no_header_keeps_parent).",
   "level_note": "Trusted: Lean kernel; extractor; harness+driver; strconv/context/time as modelled. Transit time is measured, not proved.",
   "assumptions": ["durations are int64 nanoseconds; the clock is monotone between two readings"],
  },
@@ -75,7 +75,7 @@ PROPS = {
   "fact_files": ["intercept.go"],
   "trusted_base": ["Go interface type assertion to *grpc.ClientConn; grpc.ClientConn over bufconn as the standard connection in the harness"],
   "partial": [],
-  "level_text": "Proof: Lean theorems over the InterceptClient model with interceptors as arbitrary functions: a unary call through a wrapper equals u(root connection or nil, call, onward) and a wrapper without that kind of interceptor forwards straight through (same for streams); no interceptors => the original channel; unwrap yields the wrapped channel; at every nesting depth the cc argument is the root's standard connection or nil (induction over the wrapper stack); a stack of n logging interceptors logs outermost-first, each once. Whether Invoke/NewStream obtain cc through unwrap and the both-nil test are regenerated from intercept.go. Tie: nesting depths 1..5 x all nil/pass/short-circuit/alter combinations over a real grpc.ClientConn (bufconn), in-process, HTTP and recording channels; ordered event logs compared with the model.",
+  "level_text": "Proof: Lean theorems over the InterceptClient model with interceptors as arbitrary functions: a unary call through a wrapper equals u(root connection or nil, call, onward) and a wrapper without that kind of interceptor forwards straight through (same for streams); no interceptors => the original channel; unwrap yields the wrapped channel; at every nesting depth the cc argument is the root's standard connection or nil (induction over the wrapper stack); a stack of n logging interceptors logs outermost-first, each once. Whether Invoke/NewStream obtain cc through unwrap and the both-nil test are regenerated from intercept.go. Tie: nesting depths 1..5 x all nil/pass/short-circuit/alter combinations over a real grpc.ClientConn (bufconn), in-process, HTTP and recording channels; ordered event logs compared with the model. An interceptor that forwards under another method name, or without options, reaches the next layer exactly so (C17_renamed_method_reaches_next, C17_dropped_options_stay_dropped); whatever an interceptor returns without calling onward is the call's result, and the wrapper returns the interceptor call itself (C17_short_circuit_result_unchanged, C17_results_direct_facts).",
   "level_note": "Trusted: Lean kernel; extractor; harness+driver.",
   "assumptions": ["interceptors are modelled as functions into an event-log writer (no hidden state shared between layers)"],
  },
@@ -84,7 +84,7 @@ PROPS = {
   "trusted_base": ["protoc-generated _Handler functions call dec, then the interceptor if non-nil else the method (emulated by the synthetic descriptors of the harness)",
                    "Go slice/struct copy semantics as modelled by the explicit heap of slices"],
   "partial": ["the generated handlers themselves are trusted"],
-  "level_text": "Proof: Lean theorems over the InterceptServer model with handlers and interceptors as arbitrary functions: the decorated unary handler equals t(info, req, \\req'. u(info, req', app)) (transport first, decoration next, handler last; u(info, req, app) without a transport interceptor), nested decoration composes outermost-first, the decorated stream handler equals s(info, orig) with info = (/service/stream, the description's flags), no interceptors => the same description and heap, and every slice that existed before decoration is unchanged afterwards (frame condition on an explicit heap). The fresh-slice allocations, the struct copy, the info format and flag sources and the both-nil test are regenerated from intercept.go. Tie: random descriptors x nil/pass/short-circuit/rewrite interceptors at 0..2 decoration levels and at transport level, on direct dispatch, in-process channel and HTTP server; ordered event logs and a deep snapshot of the input ServiceDesc compared.",
+  "level_text": "Proof: Lean theorems over the InterceptServer model with handlers and interceptors as arbitrary functions: the decorated unary handler equals t(info, req, \\req'. u(info, req', app)) (transport first, decoration next, handler last; u(info, req, app) without a transport interceptor), nested decoration composes outermost-first, the decorated stream handler equals s(info, orig) with info = (/service/stream, the description's flags), no interceptors => the same description and heap, and every slice that existed before decoration is unchanged afterwards (frame condition on an explicit heap). The fresh-slice allocations, the struct copy, the info format and flag sources and the both-nil test are regenerated from intercept.go. Tie: random descriptors x nil/pass/short-circuit/rewrite interceptors at 0..2 decoration levels and at transport level, on direct dispatch, in-process channel and HTTP server; ordered event logs and a deep snapshot of the input ServiceDesc compared. Nested WithInterceptor registry views decorate exactly like nested InterceptServer calls, whatever interceptors the view next to the registry holds (C16_nested_views_unary/_stream over the Reg model; what WithInterceptor returns and what a view registers are regenerated: C16_registry_view_facts).",
   "level_note": "Trusted: Lean kernel; extractor; harness+driver; generated handler shape.",
   "assumptions": ["interceptors are functions into an event-log writer"],
  },
@@ -95,7 +95,7 @@ PROPS = {
                    "protoc-gen-go-grpc emits ServiceDesc.Streams in declaration order of the streaming methods",
                    "go/parser as the per-case validity check of emitted code"],
   "partial": ["'the emitted code is valid Go / type-checks' is checked per generated case with go/parser, not proved for every descriptor"],
-  "level_text": "Proof: Lean theorems over the Stubgen model for every service (any number and interleaving of the four method kinds), by induction over the method list with the counter generalised: a streaming method at position i is bound to index = number of streaming methods before it = its own position in the Streams slice, unary methods index nothing, every stub's path is /<full service name>/<method>, the call shape matches the streaming flags, and every service of a file counts from zero. The branch table (which kinds increment the counter, callee, path template, call tail) and the counter's placement are regenerated from the plugin source. Tie: the plugin binary built from the working tree runs on synthetic CodeGeneratorRequests; emitted Go is parsed and every binding compared with the model; the checked-in test.pb.grpchan.go is regenerated byte for byte.",
+  "level_text": "Proof: Lean theorems over the Stubgen model for every service (any number and interleaving of the four method kinds), by induction over the method list with the counter generalised: a streaming method at position i is bound to index = number of streaming methods before it = its own position in the Streams slice, unary methods index nothing, every stub's path is /<full service name>/<method>, the call shape matches the streaming flags, and every service of a file counts from zero. The branch table (which kinds increment the counter, callee, path template, call tail) and the counter's placement are regenerated from the plugin source. Tie: the plugin binary built from the working tree runs on synthetic CodeGeneratorRequests; emitted Go is parsed and every binding compared with the model; the checked-in test.pb.grpchan.go is regenerated byte for byte. At request level (Stubgen.requestOutputs): every file that declares a service gets its stubs, depending on that file alone, wherever it stands in the request; files without services are transparent; reordering the request only reorders the outputs (C19_file_output_independent_of_request, _serviceless_files_are_transparent, _outputs_permute_with_request; the loops of doCodeGen are regenerated).",
   "level_note": "Trusted: Lean kernel; extractor; harness+driver; goprotoc/gopoet; protoc-gen-go-grpc ordering.",
   "assumptions": ["StreamIndex is read before the branch increments the counter (source order, validated by correspondence)"],
  },
